@@ -134,11 +134,17 @@ func runReplayTest(repo, test string, model map[string]string, work string) (str
 	return txt, failed, cmdline
 }
 
+// per-run caches: a replay test is run once per function, candidate models are computed for the first few
+// failed obligations only (each costs up to 20 s of solver time)
+var replayCache = map[string][3]string{}
+var modelsComputed int
+
 func writeReplay(dir, prop string, a *AggObl, v *Verifier, work, repo string) replayResult {
 	os.MkdirAll(dir, 0755)
 	rf := &ReplayFile{Property: prop, Obligation: a.Name, Function: a.Func, Kind: a.Kind, Clause: a.Src, Position: a.Pos, Path: a.Path,
 		Status: a.Status, Solver: a.Solver, Output: a.Output, Repo: repo}
-	if a.failing != nil && (a.Status == "failed" || a.Status == "unknown") && a.failing.x != nil {
+	if a.failing != nil && (a.Status == "failed" || (a.Status == "unknown" && modelsComputed < 3)) && a.failing.x != nil {
+		modelsComputed++
 		// a model of the negated VC, or -- when the quantified facts keep the solver from answering "sat" -- a
 		// candidate model of the quantifier-free part (values to start a manual reproduction from; not validated)
 		mo := modelFor(a.failing, work)
@@ -152,7 +158,18 @@ func writeReplay(dir, prop string, a *AggObl, v *Verifier, work, repo string) re
 	}
 	test := replayTestFor(a.Func)
 	if availableReplayTests()[test] {
-		out, failed, cmdline := runReplayTest(repo, test, rf.Model, work)
+		var out, cmdline string
+		var failed bool
+		if c, ok := replayCache[test]; ok {
+			out, cmdline, failed = c[0], c[1], c[2] == "failed"
+		} else {
+			out, failed, cmdline = runReplayTest(repo, test, rf.Model, work)
+			st := "passed"
+			if failed {
+				st = "failed"
+			}
+			replayCache[test] = [3]string{out, cmdline, st}
+		}
 		rf.Test, rf.Cmd, rf.TestOutput, rf.Reproduced = test, cmdline, out, failed
 		if failed {
 			rf.Note = "the replay test exercises the real function on the verifier's model values and a fixed corpus around them, and evaluates the violated contract at run time; it FAILED on this tree"
